@@ -407,7 +407,11 @@ func runC12(c *Ctx) {
 			continue
 		}
 		key := p.enc + "|kind-byte"
-		wi, _ := Grammar(ef, true, nil)
+		wi, wprobs := Grammar(ef, true, nil)
+		if len(wprobs) > 0 {
+			c.Undecided("C12.3", key, "%v", wprobs)
+			continue
+		}
 		okEnc := len(wi) > 0 && wi[0].Kind == itScalar && wi[0].Width == 1 && wi[0].Ref == p.kind
 		okDec := false
 		inspectBody(df.Decl.Body, func(n ast.Node) bool {
